@@ -25,4 +25,14 @@ struct Table {
 	std::vector<int> items;
 	int Get(std::size_t index) { return items[index]; }
 };
+
+// R-NARROW (sign): an unsigned 64-bit offset reinterpreted as signed before a bounds test
+struct Cursor {
+	std::size_t position;
+	void Back(uint64_t offset) {
+		const auto target = static_cast<int64_t>(position) - static_cast<int64_t>(offset);
+		if (target < 0) { throw 1; }
+		position = static_cast<std::size_t>(target);
+	}
+};
 }
